@@ -42,6 +42,8 @@ PROP = Property(
                    # containers (Dsa/Dsa_gen_agree.v)
                    "ares_array_set_size", "ares_array_remove_last", "ares_array_len", "ares_slist_max_level",
                    "ares_slist_len", "ares_llist_len", "ares_htable_num_keys",
-                   "ares_llist_node_detach"],  # Dsa/LList_gen_agree.v
+                   "ares_llist_node_detach",  # Dsa/LList_gen_agree.v
+                   # growth function, both bit-smearing bodies inlined (Dsa/Pow2_gen_agree.v)
+                   "ares_round_up_pow2", "ares_is_64bit"],
     rule="random/boundary-directed operation sequences per container; non-trivial = at least two state-changing operations succeeded in the model; distinct by case text",
 )
